@@ -534,8 +534,10 @@ Proof.
       destruct k as [|k]; [exact Nx|]. cbn [nth_error] in *.
       eapply IH; eauto. lia. }
   exists s1, s2, x, (skipn (S k) (firstn k' ops)), o1, o2, s1', s2', x', o2'.
-  repeat split; auto; intros Hval; destruct (Hv' Hval) as (V1 & V2 & V3); destruct (Hv V1) as (W1 & W2 & W3); auto.
-  rewrite Hff in W1. exact W1.
+  split; [exact R1|]. split; [exact St|]. split; [exact Nxk|]. split; [exact R2|].
+  split; [exact St'|]. split; [exact Nx'|]. split; [exact R2'|].
+  intros Hval. destruct (Hv' Hval) as (V1 & V2 & V3). destruct (Hv V1) as (W1 & W2 & W3).
+  rewrite Hff in W1. auto.
 Qed.
 
 (* what the allocating steps establish *)
@@ -602,4 +604,238 @@ Proof.
   destruct (run_S _ _ _ _ S2 V3 R2) as (_ & E2).
   destruct (step_enct_fact _ _ _ _ S1 St) as (j & -> & Hd).
   rewrite Ho in Ny. injection Ny as ->. eapply denotes_ext; eassumption.
+Qed.
+
+Ltac splits := repeat match goal with |- _ /\ _ => split end.
+
+Lemma run_at2_B : forall ops s s' outs k k' o o',
+  BInv s -> run s ops = Ok (s', outs) -> (k < k')%nat -> nth_error ops k = Some o -> nth_error ops k' = Some o' ->
+  exists s1 s2 x s1' s2' x',
+    BInv s1 /\ step s1 o = Ok (s2, x) /\ nth_error outs k = Some x /\ BInv s2 /\ ext s2 s1' /\
+    BInv s1' /\ step s1' o' = Ok (s2', x') /\ nth_error outs k' = Some x' /\ ext s2' s'.
+Proof.
+  intros ops s s' outs k k' o o' Hb H Hlt Hn Hn'.
+  destruct (run_at2 _ _ _ _ _ _ _ _ H Hlt Hn Hn') as (s1 & s2 & x & m & o1 & om & s1' & s2' & x' & o2 & R1 & St & Nx & Rm & St' & Nx' & R2 & _).
+  destruct (run_B _ _ _ _ Hb R1) as (B1 & _).
+  destruct (step_B _ _ _ _ B1 St) as (B2 & _).
+  destruct (run_B _ _ _ _ B2 Rm) as (B1' & E).
+  destruct (step_B _ _ _ _ B1' St') as (B2' & _).
+  destruct (run_B _ _ _ _ B2' R2) as (_ & E').
+  exists s1, s2, x, s1', s2', x'. splits; assumption.
+Qed.
+
+Lemma run_at2_S : forall ops s s' outs k k' o o',
+  SInv s -> valid s ops -> run s ops = Ok (s', outs) -> (k < k')%nat -> nth_error ops k = Some o -> nth_error ops k' = Some o' ->
+  exists s1 s2 x s1' s2' x',
+    SInv s1 /\ step s1 o = Ok (s2, x) /\ nth_error outs k = Some x /\ SInv s2 /\ ext s2 s1' /\
+    SInv s1' /\ step s1' o' = Ok (s2', x') /\ nth_error outs k' = Some x' /\ ext s2' s'.
+Proof.
+  intros ops s s' outs k k' o o' Hs Hv H Hlt Hn Hn'.
+  destruct (run_at2 _ _ _ _ _ _ _ _ H Hlt Hn Hn') as (s1 & s2 & x & m & o1 & om & s1' & s2' & x' & o2 & R1 & St & Nx & Rm & St' & Nx' & R2 & Hval).
+  destruct (Hval Hv) as (V1 & V2 & V3 & V4 & V5).
+  destruct (run_S _ _ _ _ Hs V1 R1) as (B1 & _).
+  destruct (step_S _ _ _ _ B1 V2 St) as (B2 & _).
+  destruct (run_S _ _ _ _ B2 V3 Rm) as (B1' & E).
+  destruct (step_S _ _ _ _ B1' V4 St') as (B2' & _).
+  destruct (run_S _ _ _ _ B2' V5 R2) as (_ & E').
+  exists s1, s2, x, s1', s2', x'. splits; assumption.
+Qed.
+
+(* ---- the history-level statements of the property ---- *)
+Lemma hist_encode_bijective : forall ops s outs k k' x x' i i',
+  run st_new ops = Ok (s, outs) ->
+  called ops outs k (Enc x) (OId i) -> called ops outs k' (Enc x') (OId i') ->
+  (i = i' <-> x = x').
+Proof.
+  intros ops s outs k k' x x' i i' H C C'.
+  destruct (hist_enc _ _ _ _ _ _ _ BInv_new H C) as (G & _).
+  destruct (hist_enc _ _ _ _ _ _ _ BInv_new H C') as (G' & _).
+  destruct (run_B _ _ _ _ BInv_new H) as ([[Hd _] _] & _).
+  split.
+  - intros <-. exact (BMInv_get_inj _ _ _ _ _ _ _ Hd G G').
+  - intros <-. unfold d_get in *. congruence.
+Qed.
+
+Lemma hist_decode_encode : forall ops s outs k k' x i r,
+  run st_new ops = Ok (s, outs) -> (k < k')%nat ->
+  called ops outs k (Enc x) (OId i) -> called ops outs k' (Dec i) (OLex r) -> r = Some x.
+Proof.
+  intros ops s outs k k' x i r H Hlt [Hn Ho] [Hn' Ho'].
+  destruct (run_at2_B _ _ _ _ _ _ _ _ BInv_new H Hlt Hn Hn') as (s1 & s2 & y & s1' & s2' & y' & B1 & St & Ny & B2 & E & B1' & St' & Ny' & _).
+  destruct (step_enc_fact _ _ _ _ B1 St) as (j & -> & _ & Hr & _).
+  rewrite Ho in Ny. injection Ny as ->.
+  cbn [step] in St'. injection St' as <- <-. rewrite Ho' in Ny'. injection Ny' as ->.
+  destruct E as [(_ & Er & _) _]. apply Er. exact Hr.
+Qed.
+
+Lemma hist_encode_decode : forall ops s outs k k' x i j,
+  run st_new ops = Ok (s, outs) -> (k < k')%nat ->
+  called ops outs k (Dec i) (OLex (Some x)) -> called ops outs k' (Enc x) (OId j) -> j = i.
+Proof.
+  intros ops s outs k k' x i j H Hlt [Hn Ho] [Hn' Ho'].
+  destruct (run_at2_B _ _ _ _ _ _ _ _ BInv_new H Hlt Hn Hn') as (s1 & s2 & y & s1' & s2' & y' & B1 & St & Ny & B2 & E & B1' & St' & Ny' & _).
+  cbn [step] in St. injection St as <- <-. rewrite Ho in Ny. injection Ny as Hdec.
+  destruct E as [(_ & Er & _) _]. symmetry in Hdec. apply Er in Hdec.
+  destruct B1' as [[Hd _] _]. apply Hd in Hdec.
+  cbn [step] in St'. unfold d_get in *. rewrite (d_encode_known _ _ _ Hdec) in St'. injection St' as <- <-.
+  rewrite Ho' in Ny'. injection Ny' as ->. reflexivity.
+Qed.
+
+Lemma hist_range_plain : forall ops s outs k x i,
+  run st_new ops = Ok (s, outs) -> called ops outs k (Enc x) (OId i) -> is_quoted i = false.
+Proof.
+  intros ops s outs k x i H C. destruct (hist_enc _ _ _ _ _ _ _ BInv_new H C) as (_ & _ & Hi).
+  apply is_quoted_false. exact Hi.
+Qed.
+
+Lemma hist_range_quoted : forall ops s outs k a b c i,
+  run st_new ops = Ok (s, outs) -> called ops outs k (EncQ a b c) (OId i) -> is_quoted i = true.
+Proof.
+  intros ops s outs k a b c i H C. destruct (hist_encq _ _ _ _ _ _ _ _ _ BInv_new H C) as (_ & _ & Hi).
+  apply is_quoted_true. exact Hi.
+Qed.
+
+Lemma hist_range_term : forall ops s outs k t i,
+  valid st_new ops -> run st_new ops = Ok (s, outs) -> called ops outs k (EncT t) (OId i) ->
+  is_quoted i = match t with TLeaf _ => false | TQuote _ _ _ => true end.
+Proof.
+  intros ops s outs k t i Hv H C. pose proof (hist_enct _ _ _ _ _ _ _ SInv_new Hv H C) as Hd.
+  apply denotes_range in Hd. destruct t; [apply is_quoted_false|apply is_quoted_true]; exact Hd.
+Qed.
+
+Lemma hist_qt_structural_ids : forall ops s outs k k' a b c a' b' c' i i',
+  run st_new ops = Ok (s, outs) ->
+  called ops outs k (EncQ a b c) (OId i) -> called ops outs k' (EncQ a' b' c') (OId i') ->
+  (i = i' <-> (a, b, c) = (a', b', c')).
+Proof.
+  intros ops s outs k k' a b c a' b' c' i i' H C C'.
+  destruct (hist_encq _ _ _ _ _ _ _ _ _ BInv_new H C) as (G & _).
+  destruct (hist_encq _ _ _ _ _ _ _ _ _ BInv_new H C') as (G' & _).
+  destruct (run_B _ _ _ _ BInv_new H) as ([_ Hq] & _).
+  split.
+  - intros <-. exact (BMInv_get_inj _ _ _ _ _ _ _ Hq G G').
+  - intros E. rewrite <- E in G'. unfold q_get in *. congruence.
+Qed.
+
+Lemma hist_qt_structural_terms : forall ops s outs k k' t t' i i',
+  valid st_new ops -> run st_new ops = Ok (s, outs) ->
+  called ops outs k (EncT t) (OId i) -> called ops outs k' (EncT t') (OId i') ->
+  (i = i' <-> t = t').
+Proof.
+  intros ops s outs k k' t t' i i' Hv H C C'.
+  pose proof (hist_enct _ _ _ _ _ _ _ SInv_new Hv H C) as D.
+  pose proof (hist_enct _ _ _ _ _ _ _ SInv_new Hv H C') as D'.
+  destruct (run_S _ _ _ _ SInv_new Hv H) as ([Hb _] & _).
+  split.
+  - intros <-. eapply denotes_fun; eassumption.
+  - intros <-. eapply denotes_inj; eassumption.
+Qed.
+
+Lemma hist_term_vs_plain : forall ops s outs k k' x i i',
+  valid st_new ops -> run st_new ops = Ok (s, outs) ->
+  called ops outs k (Enc x) (OId i) -> called ops outs k' (EncT (TLeaf x)) (OId i') -> i = i'.
+Proof.
+  intros ops s outs k k' x i i' Hv H C C'.
+  destruct (hist_enc _ _ _ _ _ _ _ BInv_new H C) as (G & _).
+  pose proof (hist_enct _ _ _ _ _ _ _ SInv_new Hv H C') as D'.
+  destruct (run_B _ _ _ _ BInv_new H) as ([[Hd _] _] & _).
+  inversion D'; subst.
+  match goal with [ Hx : d_decode _ i' = Some _ |- _ ] => apply Hd in Hx; change (d_get (sd s) x = Some i') in Hx; congruence end.
+Qed.
+
+Lemma hist_decode_term : forall ops s outs k k' t i r,
+  valid st_new ops -> run st_new ops = Ok (s, outs) -> (k < k')%nat ->
+  called ops outs k (EncT t) (OId i) -> called ops outs k' (DecT i) (OTerm r) -> r = Ok t.
+Proof.
+  intros ops s outs k k' t i r Hv H Hlt [Hn Ho] [Hn' Ho'].
+  destruct (run_at2_S _ _ _ _ _ _ _ _ SInv_new Hv H Hlt Hn Hn') as (s1 & s2 & y & s1' & s2' & y' & B1 & St & Ny & B2 & E & B1' & St' & Ny' & _).
+  destruct (step_enct_fact _ _ _ _ B1 St) as (j & -> & Hd).
+  rewrite Ho in Ny. injection Ny as ->.
+  cbn [step] in St'. injection St' as <- <-. rewrite Ho' in Ny'. injection Ny' as ->.
+  apply decode_any_complete; [exact B1'|]. eapply denotes_ext; eassumption.
+Qed.
+
+Lemma hist_decode_quoted : forall ops s outs k k' a b c i r,
+  run st_new ops = Ok (s, outs) -> (k < k')%nat ->
+  called ops outs k (EncQ a b c) (OId i) -> called ops outs k' (DecQ i) (OKey r) -> r = Some (a, b, c).
+Proof.
+  intros ops s outs k k' a b c i r H Hlt [Hn Ho] [Hn' Ho'].
+  destruct (run_at2_B _ _ _ _ _ _ _ _ BInv_new H Hlt Hn Hn') as (s1 & s2 & y & s1' & s2' & y' & B1 & St & Ny & B2 & E & B1' & St' & Ny' & _).
+  destruct (step_encq_fact _ _ _ _ _ _ B1 St) as (j & -> & _ & Hr & _).
+  rewrite Ho in Ny. injection Ny as ->.
+  cbn [step] in St'. injection St' as <- <-. rewrite Ho' in Ny'. injection Ny' as ->.
+  destruct E as [_ (_ & Er & _)]. apply Er. exact Hr.
+Qed.
+
+(* ids handed out earlier never change: every binding of both stores, and every denotation, survives
+   any later call sequence; re-encoding a known term returns the old id and changes nothing *)
+Lemma stable_bindings : forall ops1 ops2 s1 o1 s2 o2,
+  run st_new ops1 = Ok (s1, o1) -> run s1 ops2 = Ok (s2, o2) ->
+  (forall x i, d_get (sd s1) x = Some i -> d_get (sd s2) x = Some i) /\
+  (forall i x, d_decode (sd s1) i = Some x -> d_decode (sd s2) i = Some x) /\
+  (forall k i, q_get (sq s1) k = Some i -> q_get (sq s2) k = Some i) /\
+  (forall i k, q_decode (sq s1) i = Some k -> q_decode (sq s2) i = Some k) /\
+  (forall x i, d_get (sd s1) x = Some i -> step s2 (Enc x) = Ok (s2, OId i)) /\
+  (forall a b c i, q_get (sq s1) (a, b, c) = Some i -> step s2 (EncQ a b c) = Ok (s2, OId i)).
+Proof.
+  intros ops1 ops2 s1 o1 s2 o2 H1 H2.
+  destruct (run_B _ _ _ _ BInv_new H1) as (B1 & _).
+  destruct (run_B _ _ _ _ B1 H2) as (B2 & [(Dg & Dr & _) (Qg & Qr & _)]).
+  splits; auto.
+  - intros x i Hg. cbn [step]. rewrite (d_encode_known _ _ _ (Dg _ _ Hg)). rewrite st_eta. reflexivity.
+  - intros a b c i Hg. cbn [step]. rewrite (q_encode_known _ _ _ (Qg _ _ Hg)). rewrite st_eta. reflexivity.
+Qed.
+
+Lemma stable_terms : forall ops1 ops2 s1 o1 s2 o2,
+  valid st_new ops1 -> run st_new ops1 = Ok (s1, o1) -> valid s1 ops2 -> run s1 ops2 = Ok (s2, o2) ->
+  forall i t, decode_any s1 i = Ok t ->
+    decode_any s2 i = Ok t /\ step s2 (EncT t) = Ok (s2, OId i).
+Proof.
+  intros ops1 ops2 s1 o1 s2 o2 V1 H1 V2 H2 i t Hd.
+  destruct (run_S _ _ _ _ SInv_new V1 H1) as (S1 & _).
+  destruct (run_S _ _ _ _ S1 V2 H2) as (S2 & E).
+  apply decode_term_sound in Hd. pose proof (denotes_ext _ _ _ _ E Hd) as Hd2.
+  split; [apply decode_any_complete; assumption|].
+  cbn [step]. destruct S2 as [B2 _]. rewrite (encode_term_known _ _ _ B2 Hd2). reflexivity.
+Qed.
+
+(* a boolean form of `valid`, for concrete histories *)
+Definition definedb (s : st) (i : N) : bool := (i <? nxt (sd s)) || ((QBIT <=? i) && (i <? nxt (sq s))).
+Definition op_validb (s : st) (o : op) : bool :=
+  match o with
+  | EncQ a b c => definedb s a && definedb s b && definedb s c
+  | _ => true
+  end.
+Fixpoint validb (s : st) (ops : list op) : bool :=
+  match ops with
+  | [] => true
+  | o :: r => op_validb s o && match step s o with Ok (s1, _) => validb s1 r | Err _ => true end
+  end.
+
+Lemma definedb_sound : forall s i, definedb s i = true -> defined s i.
+Proof.
+  intros s i H. unfold definedb in H. apply orb_true_iff in H. destruct H as [H|H].
+  - left. apply N.ltb_lt. exact H.
+  - apply andb_true_iff in H. destruct H as [H1 H2]. right. split; [apply N.leb_le; exact H1|apply N.ltb_lt; exact H2].
+Qed.
+
+Lemma validb_sound : forall ops s, validb s ops = true -> valid s ops.
+Proof.
+  induction ops as [|o r IH]; intros s H; cbn [validb valid] in *; [exact I|].
+  apply andb_true_iff in H. destruct H as [H1 H2]. split.
+  - destruct o; cbn [op_validb op_valid] in *; try exact I.
+    apply andb_true_iff in H1. destruct H1 as [H1 Hc]. apply andb_true_iff in H1. destruct H1 as [Ha Hb].
+    splits; apply definedb_sound; assumption.
+  - destruct (step s o) as [[s1 x]|]; [apply IH; exact H2|exact I].
+Qed.
+
+(* histories that never call QuotedTripleStore::encode on raw ids (everything the loaders do) are valid *)
+Definition no_raw (o : op) : Prop := match o with EncQ _ _ _ => False | _ => True end.
+
+Lemma valid_no_raw : forall ops s, Forall no_raw ops -> valid s ops.
+Proof.
+  induction ops as [|o r IH]; intros s H; cbn [valid]; [exact I|].
+  inversion H as [|o' r' Ho Hr]; subst. split.
+  - destruct o; cbn [op_valid no_raw] in *; try exact I. contradiction.
+  - destruct (step s o) as [[s1 x]|]; [apply IH; exact Hr|exact I].
 Qed.
